@@ -152,6 +152,9 @@ theorem reqUrl_serves (a : AppId) (o : Obj) (ho : o.cls = .request) (d : Nat) (k
 theorem obsRead_serves (a : AppId) (v : PVal) (k : Prog) (hk : k.Serves a) : (obsRead a v k).Serves a :=
   Prog.Serves.emit _ _ hk
 
+theorem obsCopy_serves (a : AppId) (v : PVal) (k : Prog) (hk : k.Serves a) : (obsCopy a v k).Serves a :=
+  Prog.Serves.emit _ _ hk
+
 theorem hdOp_serves (a : AppId) (op : DictOp) (k : Res → Prog) (hk : ∀ r, (k r).Serves a) :
     (hdOp a op k).Serves a :=
   Prog.Serves.step _ _ trivial fun _ => Prog.Serves.step _ _ trivial hk
@@ -177,14 +180,69 @@ theorem applyTo_serves (a : AppId) (code : Int) (line body : String) (hdrs : Lis
   apply setItems_serves
   exact Prog.Serves.step _ _ resp_attrs.2.2.2.2 fun _ => hk
 
-theorem errorPage_serves (a : AppId) (line text : String) (k : String → Prog)
-    (hk : ∀ s, (k s).Serves a) : (errorPage a line text k).Serves a := by
-  unfold errorPage
+theorem errField_serves (a : AppId) (src : ErrSrc) (f : Attr) (k : Res → Prog)
+    (hk : ∀ r, (k r).Serves a) : (errField a src f k).Serves a := by
+  cases src with
+  | shared e => exact Prog.Serves.step _ _ trivial hk
+  | fresh code line text hdrs exc tb => simp only [errField]; exact hk _
+
+theorem setItemsD_serves (a : AppId) (r : Reg) (l : Dict) (k : Prog) (hk : k.Serves a) :
+    (setItemsD a r l k).Serves a := by
+  induction l with
+  | nil => exact hk
+  | cons x l ih => exact Prog.Serves.step _ _ trivial fun _ => ih
+
+theorem applyErr_serves (a : AppId) (src : ErrSrc) (k : Prog) (hk : k.Serves a) :
+    (applyErr a src k).Serves a := by
+  unfold applyErr
+  apply errField_serves; intro _
+  refine Prog.Serves.step _ _ resp_attrs.2.1 fun _ => ?_
+  apply errField_serves; intro _
+  refine Prog.Serves.step _ _ resp_attrs.1 fun _ => ?_
+  refine Prog.Serves.step _ _ resp_attrs.2.2.1 fun _ => ?_
+  refine Prog.Serves.step _ _ trivial fun _ => ?_
+  refine Prog.Serves.step _ _ resp_attrs.2.2.1 fun _ => ?_
+  apply errField_serves; intro _
+  apply setItemsD_serves
+  apply errField_serves; intro _
+  apply errField_serves; intro _
+  exact Prog.Serves.step _ _ resp_attrs.2.2.2.2 fun _ => hk
+
+theorem reqIsJson_serves (a : AppId) (k : PVal → Prog) (hk : ∀ v, (k v).Serves a) :
+    (reqIsJson a k).Serves a := by
+  unfold reqIsJson
   apply cacheIn_serves a .request rfl
   · intro ret hret
     exact envGet_serves a .request rfl _ _ fun _ => hret _
-  · intro _
-    exact reqUrl_serves a .request rfl _ _ fun _ => hk _
+  · exact hk
+
+theorem defaultErrorHandler_serves (a : AppId) (debug : Bool) (src : ErrSrc) (k : String → Prog)
+    (hk : ∀ s, (k s).Serves a) : (defaultErrorHandler a debug src k).Serves a := by
+  unfold defaultErrorHandler
+  apply reqIsJson_serves; intro j
+  refine serves_ite ?_ ?_
+  · apply errField_serves; intro _
+    apply errField_serves; intro _
+    apply errField_serves; intro _
+    exact hdOp_serves a _ _ fun _ => hk _
+  · apply reqUrl_serves a .request rfl; intro u
+    refine serves_ite ?_ ?_
+    · apply errField_serves; intro _
+      apply errField_serves; intro _
+      apply errField_serves; intro _
+      apply errField_serves; intro _
+      exact hk _
+    · apply errField_serves; intro _
+      apply errField_serves; intro _
+      exact hk _
+
+theorem customErrorHandler_serves (a : AppId) (src : ErrSrc) (k : String → Prog)
+    (hk : ∀ s, (k s).Serves a) : (customErrorHandler a src k).Serves a := by
+  unfold customErrorHandler
+  refine Prog.Serves.step _ _ resp_attrs.1 fun _ => Prog.Serves.emit _ _ ?_
+  refine hdOp_serves a _ _ fun _ => Prog.Serves.emit _ _ ?_
+  refine hdOp_serves a _ _ fun _ => Prog.Serves.emit _ _ ?_
+  exact errField_serves a src _ _ fun _ => hk _
 
 theorem castText_serves (a : AppId) (s : String) (b : Bool) (k : String → Prog)
     (hk : ∀ s, (k s).Serves a) : (castText a s b k).Serves a := by
@@ -197,8 +255,8 @@ theorem castEmpty_serves (a : AppId) (k : String → Prog) (hk : ∀ s, (k s).Se
     (castEmpty a k).Serves a :=
   hdOp_serves a _ _ fun _ => hk _
 
-theorem cast_serves (a : AppId) (o : Out) (k : String → Prog) (hk : ∀ s, (k s).Serves a) :
-    (cast a o k).Serves a := by
+theorem cast_serves (a : AppId) (debug : Bool) (custom : List Int) (o : Out) (k : String → Prog)
+    (hk : ∀ s, (k s).Serves a) : (cast a debug custom o k).Serves a := by
   cases o with
   | empty => exact castEmpty_serves a k hk
   | text s => simp only [cast]; split; exact castEmpty_serves a k hk; exact castText_serves a _ _ k hk
@@ -209,10 +267,16 @@ theorem cast_serves (a : AppId) (o : Out) (k : String → Prog) (hk : ∀ s, (k 
     split
     · exact castEmpty_serves a k hk
     · exact castText_serves a _ _ k hk
-  | err code line text hdrs =>
+  | err src =>
     simp only [cast]
-    apply applyTo_serves
-    exact errorPage_serves a _ _ _ fun _ => castText_serves a _ _ k hk
+    apply applyErr_serves
+    apply errField_serves; intro rc
+    have hafter : ∀ page : String,
+        (if page == "" then castEmpty a k else castText a page false k).Serves a :=
+      fun page => serves_ite (castEmpty_serves a k hk) (castText_serves a _ _ k hk)
+    refine serves_ite ?_ ?_
+    · exact customErrorHandler_serves a src _ hafter
+    · exact defaultErrorHandler_serves a debug src _ hafter
 
 theorem finishCookies_serves (a : AppId) (status : String) (hl : List (String × String)) (body : String)
     (k : Prog) (hk : k.Serves a) : (finishCookies a status hl body k).Serves a := by
@@ -326,7 +390,7 @@ theorem hop_serves (nest : Req → Prog → Prog) (a : AppId) (cs : List Nat) (o
     refine Prog.Serves.step _ _ trivial fun _ => ?_
     refine Prog.Serves.step _ _ trivial fun r => ?_
     exact requestInit_serves a _ rfl _ _ (hk _)
-  | cpath i => simp only [hop]; exact reqPath_serves a (.copy _) rfl _ fun _ => obsRead_serves a _ _ (hk _)
+  | cpath i => simp only [hop]; exact reqPath_serves a (.copy _) rfl _ fun _ => obsCopy_serves a _ _ (hk _)
   | cset i key v =>
     simp only [hop]
     apply envGet_serves a _ rfl; intro _
@@ -335,7 +399,17 @@ theorem hop_serves (nest : Req → Prog → Prog) (a : AppId) (cs : List Nat) (o
     refine serves_ite (hk _) ?_
     refine Prog.Serves.step _ _ trivial fun _ => ?_
     refine Prog.Serves.step _ _ req_attr_environ fun _ => ?_
-    exact Prog.Serves.step _ _ trivial fun _ => hk _
+    generalize envChangedPops key = pops
+    induction pops with
+    | nil => exact hk _
+    | cons c pops ih => exact Prog.Serves.step _ _ trivial fun _ => ih
+  | cheader i n key =>
+    simp only [hop]
+    apply cacheIn_serves a (.copy _) rfl
+    · intro ret hret
+      exact Prog.Serves.step _ _ req_attr_environ fun _ => hret _
+    · intro _
+      exact Prog.Serves.step _ _ trivial fun _ => obsCopy_serves a _ _ (hk _)
   | nested r => simp [HOp.isLocal] at hl
   | construct b => simp [HOp.isLocal] at hl
 
@@ -349,6 +423,43 @@ theorem hops_serves (nest : Req → Prog → Prog) (a : AppId) (ops : List HOp)
     exact hop_serves nest a cs op (hl op (by simp)) _ fun cs' =>
       ih (fun o ho => hl o (by simp [ho])) cs'
 
+theorem failJsonProg_serves (a : AppId) (k : Prog) (hk : k.Serves a) : (failJsonProg a k).Serves a := by
+  unfold failJsonProg
+  refine Prog.Serves.step _ _ req_attr_environ fun _ => ?_
+  refine Prog.Serves.step _ _ trivial fun _ => ?_
+  apply cacheIn_serves a .request rfl
+  · intro ret hret
+    exact reqContentType_serves a .request rfl _ _ fun v => hret v
+  · intro _
+    apply reqBodyObj_serves a .request rfl; intro _
+    apply reqBodyObj_serves a .request rfl; intro _
+    exact reqContentLength_serves a .request rfl _ _ fun _ => hk
+
+theorem failFormProg_serves (a : AppId) (k : Prog) (hk : k.Serves a) : (failFormProg a k).Serves a := by
+  unfold failFormProg
+  refine Prog.Serves.step _ _ req_attr_environ fun _ => ?_
+  refine Prog.Serves.step _ _ trivial fun _ => ?_
+  refine Prog.Serves.step _ _ req_attr_environ fun _ => ?_
+  refine Prog.Serves.step _ _ trivial fun _ => ?_
+  refine Prog.Serves.step _ _ req_attr_environ fun _ => ?_
+  refine Prog.Serves.step _ _ trivial fun _ => ?_
+  apply reqContentType_serves a .request rfl; intro _
+  apply reqBodyObj_serves a .request rfl; intro _
+  apply reqBodyObj_serves a .request rfl; intro _
+  exact reqContentLength_serves a .request rfl _ _ fun _ => hk
+
+theorem outcome_serves (a : AppId) (o : Outcome) (k : Out → Prog) (hk : ∀ x, (k x).Serves a) :
+    (outcome a o k).Serves a := by
+  cases o with
+  | failJson e => simp only [outcome]; exact failJsonProg_serves a _ (hk _)
+  | failForm e => simp only [outcome]; exact failFormProg_serves a _ (hk _)
+  | ret s => simp only [outcome]; exact hk _
+  | retBytes s => simp only [outcome]; exact hk _
+  | empty => simp only [outcome]; exact hk _
+  | raise c l b h => simp only [outcome]; exact hk _
+  | error c l t => simp only [outcome]; exact hk _
+  | crash l e => simp only [outcome]; exact hk _
+
 /-- serving a request that stays inside application `a` is a `Serves a` program -/
 theorem serve_serves (fuel : Nat) (a : AppId) (r : Req) (hl : r.LocalTo a) (k : Prog) (hk : k.Serves a) :
     (serve fuel r k).Serves a := by
@@ -356,13 +467,19 @@ theorem serve_serves (fuel : Nat) (a : AppId) (r : Req) (hl : r.LocalTo a) (k : 
   | zero => cases r; exact hk
   | succ fuel =>
     cases r with
-    | mk b env route =>
-      have hb : b = a := by
-        cases route <;> simp only [Req.LocalTo] at hl <;> first | exact hl.1 | exact hl
+    | mk b env debug custom before after route =>
+      have hloc : b = a ∧ (∀ op ∈ before, op.isLocal = true) ∧ (∀ op ∈ after, op.isLocal = true) := by
+        cases route <;> simp only [Req.LocalTo] at hl
+        · exact ⟨hl.1, hl.2.1, hl.2.2.1⟩
+        all_goals exact hl
+      obtain ⟨hb, hbefore, hafter⟩ := hloc
       subst hb
-      have hcf : ∀ o : Out, (cast b o fun body =>
+      have hcf : ∀ o : Out, (cast b debug custom o fun body =>
           finish b (dictGet env "REQUEST_METHOD" == some (.str "HEAD")) body k).Serves b :=
-        fun o => cast_serves b o _ fun _ => finish_serves b _ _ k hk
+        fun o => cast_serves b debug custom o _ fun _ => finish_serves b _ _ k hk
+      have hleave : ∀ o : Out, (hops (serve fuel) b after [] (cast b debug custom o fun body =>
+          finish b (dictGet env "REQUEST_METHOD" == some (.str "HEAD")) body k)).Serves b :=
+        fun o => hops_serves _ b after hafter [] _ (hcf o)
       have hre : ∀ p : Prog, p.Serves b →
           (Prog.step b (.dOp rEnviron (.set "ombott.app" (.str "<app>"))) fun _ =>
             requestInit b .request rEnviron <| responseInit b p).Serves b :=
@@ -377,24 +494,27 @@ theorem serve_serves (fuel : Nat) (a : AppId) (r : Req) (hl : r.LocalTo a) (k : 
       | notFound line text =>
         refine Prog.Serves.step _ _ trivial fun _ => ?_
         apply hre
+        apply hops_serves _ b before hbefore
         apply reqPath_serves b .request rfl; intro _
         apply envGet_serves b .request rfl; intro _
-        exact hcf _
+        exact hleave _
       | notAllowed line text allow =>
         refine Prog.Serves.step _ _ trivial fun _ => ?_
         apply hre
+        apply hops_serves _ b before hbefore
         apply reqPath_serves b .request rfl; intro _
         apply envGet_serves b .request rfl; intro _
-        exact hcf _
+        exact hleave _
       | handler ops out =>
         refine Prog.Serves.step _ _ trivial fun _ => ?_
         apply hre
+        apply hops_serves _ b before hbefore
         apply reqPath_serves b .request rfl; intro _
         apply envGet_serves b .request rfl; intro _
         refine Prog.Serves.step _ _ trivial fun _ => ?_
         refine Prog.Serves.step _ _ trivial fun _ => ?_
         refine Prog.Serves.step _ _ trivial fun _ => ?_
         simp only [Req.LocalTo] at hl
-        exact hops_serves _ b ops hl.2 [] _ (hcf _)
+        exact hops_serves _ b ops hl.2.2.2 [] _ (outcome_serves b out _ hleave)
 
 end Ombott.WsgiConc
